@@ -13,8 +13,22 @@ type Cmt struct {
 	B bool     `json:"b,omitempty"`
 }
 
+// LineDir is a `//line name:N:1` directive printed (between blank lines, at column 1) in front of a declaration:
+// from the next line on go/token reports positions as name:N, N+1, ... (goyacc / cgo / template output).
+// Name "" = the file's own name (only the line numbers jump).  The column form keeps columns physical.
+// The jump is always FORWARD: N = (reported line of the directive) + 2 + Skip.  go/parser itself groups and
+// attaches comments by REPORTED line numbers, so a directive that jumps backwards merges with the next comment
+// into one group / can turn a doc comment into a "line comment" of the previous token - parser behaviour that
+// is outside the property; with forward jumps the reported lines stay increasing and reported (file, line)
+// pairs never repeat (both indexes of the code are keyed by them).
+type LineDir struct {
+	Name string `json:"name,omitempty"`
+	Skip int    `json:"skip,omitempty"`
+}
+
 // Field is a struct field, an interface method or a function parameter.
 type Field struct {
+	Dir    *LineDir `json:"dir,omitempty"`
 	Names  []string `json:"n,omitempty"` // empty: embedded
 	Type   string   `json:"t"`
 	Sub    []Field  `json:"sub,omitempty"` // non-empty: anonymous struct type on several lines
@@ -29,6 +43,7 @@ type Field struct {
 }
 
 type Spec struct {
+	Dir     *LineDir `json:"dir,omitempty"` // grouped specs only
 	Names   []string `json:"n"`
 	TK      string   `json:"tk,omitempty"` // type specs: basic | alias | struct | iface
 	Type    string   `json:"t,omitempty"`  // basic/alias: the type; const/var: optional type
@@ -47,17 +62,18 @@ type Spec struct {
 }
 
 type Decl struct {
-	Kind    string  `json:"k"` // type | const | var | import | func
-	Grouped bool    `json:"g,omitempty"`
-	Open    *Cmt    `json:"open,omitempty"`  // after "(" / after the "{" of a function body
-	Close   *Cmt    `json:"close,omitempty"` // after ")" / after the "}" of a function body
-	Doc     *Cmt    `json:"doc,omitempty"`
-	Det     *Cmt    `json:"det,omitempty"`
-	Blank   int     `json:"bl,omitempty"`
-	Specs   []Spec  `json:"s,omitempty"`
-	Name    string  `json:"name,omitempty"` // func
-	Params  []Field `json:"p,omitempty"`
-	Body    []Decl  `json:"body,omitempty"`
+	Dir     *LineDir `json:"dir,omitempty"`
+	Kind    string   `json:"k"` // type | const | var | import | func
+	Grouped bool     `json:"g,omitempty"`
+	Open    *Cmt     `json:"open,omitempty"`  // after "(" / after the "{" of a function body
+	Close   *Cmt     `json:"close,omitempty"` // after ")" / after the "}" of a function body
+	Doc     *Cmt     `json:"doc,omitempty"`
+	Det     *Cmt     `json:"det,omitempty"`
+	Blank   int      `json:"bl,omitempty"`
+	Specs   []Spec   `json:"s,omitempty"`
+	Name    string   `json:"name,omitempty"` // func
+	Params  []Field  `json:"p,omitempty"`
+	Body    []Decl   `json:"body,omitempty"`
 }
 
 type File struct {
@@ -85,11 +101,45 @@ type pname struct {
 	Decl            int // index into decls
 }
 
+// vfiles numbers the file names positions are reported under: the physical files f0.go, f1.go first, then
+// the names introduced by //line directives, in order of first appearance (shared by the files of one input)
+type vfiles struct{ names []string }
+
+func newVfiles(nPhysical int) *vfiles {
+	v := &vfiles{}
+	for i := 0; i < nPhysical; i++ {
+		v.names = append(v.names, fileName(i))
+	}
+	return v
+}
+
+func (v *vfiles) index(name string) int {
+	for i, n := range v.names {
+		if n == name {
+			return i
+		}
+	}
+	v.names = append(v.names, name)
+	return len(v.names) - 1
+}
+
+func (v *vfiles) lookup(name string) int {
+	for i, n := range v.names {
+		if n == name {
+			return i
+		}
+	}
+	return -1
+}
+
 type printer struct {
 	sb    strings.Builder
-	file  int
-	line  int
+	phys  int // index of the physical file
+	vf    *vfiles
+	file  int // the file positions are reported under (changes behind a //line directive), index into vf
+	line  int // the line positions are reported under
 	col   int
+	ndirs int
 	cmts  []pcmt
 	decls []pdecl
 	names []pname
@@ -168,6 +218,29 @@ func (p *printer) behind(c *Cmt, kind string) int {
 	return id
 }
 
+// dir prints a //line directive; the caller is at the start of a line.  The directive comment is a
+// stand-alone comment group of its own (blank lines around it) whose Text() is empty and which still lies in
+// the old numbering; the line after it is line d.Line of d.Name.
+func (p *printer) dir(d *LineDir) {
+	if d == nil {
+		return
+	}
+	p.nl()
+	name := d.Name
+	if name == "" {
+		name = fileName(p.phys)
+	}
+	rec := pcmt{File: p.file, Line: p.line, Col: p.col, Kind: "lead"}
+	n := p.line + 2 + max(d.Skip, 0)
+	p.w(fmt.Sprintf("//line %s:%d:1", name, n))
+	rec.EndLine = p.line
+	p.cmts = append(p.cmts, rec)
+	p.nl()
+	p.file, p.line, p.col = p.vf.index(name), n, 1
+	p.ndirs++
+	p.nl()
+}
+
 func (p *printer) front(det *Cmt, blank int, indent string) {
 	for i := 0; i < blank; i++ {
 		p.nl()
@@ -210,6 +283,7 @@ func (p *printer) fields(fs []Field, indent string) {
 		semi := f.Semi && i > 0
 		docID := -1
 		if !semi {
+			p.dir(f.Dir)
 			p.front(f.Det, f.Blank, indent)
 			docID = p.lead(f.Doc, indent)
 			p.w(indent)
@@ -330,6 +404,7 @@ func (p *printer) spec(kind string, s *Spec, indent string, grouped bool, docID 
 }
 
 func (p *printer) decl(d *Decl, indent string) {
+	p.dir(d.Dir)
 	p.front(d.Det, d.Blank, indent)
 	docID := p.lead(d.Doc, indent)
 	if d.Kind == "func" {
@@ -391,6 +466,7 @@ func (p *printer) decl(d *Decl, indent string) {
 		semi := s.Semi && i > 0
 		id := -1
 		if !semi {
+			p.dir(s.Dir)
 			p.front(s.Det, s.Blank, in)
 			id = p.lead(s.Doc, in)
 			p.w(in)
@@ -408,8 +484,8 @@ func (p *printer) decl(d *Decl, indent string) {
 	p.nl()
 }
 
-func printFile(idx int, f *File) *printer {
-	p := &printer{file: idx, line: 1, col: 1}
+func printFile(idx int, f *File, vf *vfiles) *printer {
+	p := &printer{phys: idx, vf: vf, file: idx, line: 1, col: 1}
 	p.lead(f.Header, "")
 	p.w("package p\n")
 	for i := range f.Decls {
